@@ -1,5 +1,7 @@
 (* C19 -- discover returns a valid converter that compresses the URIs it learned from.
-   [al] is the str.isalnum table (any), [known_rs] the records of the optional pre-existing strict converter.
+   [al] is the str.isalnum table (any); [recog u] says whether the optional pre-existing converter already recognises u
+   (converter.is_uri(u); constantly false without a converter) -- every theorem holds for ANY recogniser, and C19_records_conv
+   instantiates it for a strict converter over records rs.
    The model follows the code (dictionary of sets, first delimiter in priority order whose tail is alphanumeric,
    GitHub-issues special case); spec_records is the naive specification used by the run-time predicate. *)
 From Coq Require Import Sorted.
@@ -7,59 +9,69 @@ From Curies.model Require Import Str PyData Trie Conv Query Val Answer Spec Chec
 From Curies.proofs Require Import StrFacts IndexFacts QueryFacts SortFacts LawFacts DiscoveryFacts.
 
 (* the loop over a dictionary of sets computes exactly the specification *)
-Theorem C19_records : forall al known_rs c delims cutoff meta uris,
-  match known_rs with Some rs => mk_conv true [58%N] rs = Val c | None => True end ->
-  discover_records al (match known_rs with Some _ => Some c | None => None end) delims cutoff meta uris =
-  spec_records al known_rs true delims cutoff meta uris.
+Theorem C19_records : forall al recog delims cutoff meta uris,
+  discover_records al recog delims cutoff meta uris = spec_records al recog true delims cutoff meta uris.
 Proof. exact discover_records_spec. Qed.
 Print Assumptions C19_records.
+(* ... and with a strict pre-existing converter c over rs, "recognised" means: some registered URI prefix of rs is a prefix of u *)
+Theorem C19_records_conv : forall al known_rs c delims cutoff meta uris,
+  match known_rs with Some rs => mk_conv true [58%N] rs = Val c | None => True end ->
+  discover_records al (recog_of (match known_rs with Some _ => Some c | None => None end)) delims cutoff meta uris =
+  spec_records al (recog_rs known_rs) true delims cutoff meta uris.
+Proof. exact discover_records_conv. Qed.
+Print Assumptions C19_records_conv.
+(* the result depends on the recogniser only through its answers on the input URIs (what the run records) *)
+Theorem C19_recog_ext : forall al recog recog' ex dl cutoff meta us, (forall u, In u us -> recog u = recog' u) ->
+  spec_records al recog ex dl cutoff meta us = spec_records al recog' ex dl cutoff meta us.
+Proof. exact spec_records_ext. Qed.
+Print Assumptions C19_recog_ext.
 
 (* a deterministic function of the SET of URIs: order and repetition are irrelevant *)
-Theorem C19_set_fun : forall al known_rs ex dl cutoff meta us us', (forall u, In u us <-> In u us') ->
-  spec_records al known_rs ex dl cutoff meta us = spec_records al known_rs ex dl cutoff meta us'.
+Theorem C19_set_fun : forall al recog ex dl cutoff meta us us', (forall u, In u us <-> In u us') ->
+  spec_records al recog ex dl cutoff meta us = spec_records al recog ex dl cutoff meta us'.
 Proof. exact spec_records_set. Qed.
 Print Assumptions C19_set_fun.
 
 (* always a valid strict converter *)
-Theorem C19_valid : forall al known_rs ex dl cutoff meta us,
-  exists D, mk_conv true [58%N] (spec_records al known_rs ex dl cutoff meta us) = Val D.
+Theorem C19_valid : forall al recog ex dl cutoff meta us,
+  exists D, mk_conv true [58%N] (spec_records al recog ex dl cutoff meta us) = Val D.
 Proof. exact spec_records_valid. Qed.
 Print Assumptions C19_valid.
 
 (* named metaprefix1, metaprefix2, ... in sorted URI-prefix order; each URI prefix ends with one of the delimiters *)
-Theorem C19_shape_sorted : forall al known_rs ex dl cutoff us, StronglySorted slt (spec_prefixes al known_rs ex dl cutoff us).
+Theorem C19_shape_sorted : forall al recog ex dl cutoff us, StronglySorted slt (spec_prefixes al recog ex dl cutoff us).
 Proof. exact spec_prefixes_ssorted. Qed.
 Print Assumptions C19_shape_sorted.
 Theorem C19_shape_names : forall i meta ps, flat_map all_prefixes (number_from i meta ps) = map (fun k => meta ++ dec k) (seq i (length ps))
   /\ flat_map all_uris (number_from i meta ps) = ps.
 Proof. intros. split; [apply number_from_prefixes|apply number_from_uris]. Qed.
 Print Assumptions C19_shape_names.
-Theorem C19_shape_delimiter : forall al known_rs ex dl cutoff us p,
-  In p (spec_prefixes al known_rs ex dl cutoff us) -> ends_with_delim (eff_delims dl) p = true.
+Theorem C19_shape_delimiter : forall al recog ex dl cutoff us p,
+  In p (spec_prefixes al recog ex dl cutoff us) -> ends_with_delim (eff_delims dl) p = true.
 Proof. exact spec_prefixes_end. Qed.
 Print Assumptions C19_shape_delimiter.
 
 (* a URI prefix is kept iff at least `cutoff` distinct identifiers were seen for it *)
-Theorem C19_cutoff : forall al known_rs ex dl cutoff us p,
-  In p (spec_prefixes al known_rs ex dl cutoff us) <->
-  In p (map fst (learnt al known_rs ex dl us)) /\ cut_ok cutoff (count_luids p (learnt al known_rs ex dl us)) = true.
+Theorem C19_cutoff : forall al recog ex dl cutoff us p,
+  In p (spec_prefixes al recog ex dl cutoff us) <->
+  In p (map fst (learnt al recog ex dl us)) /\ cut_ok cutoff (count_luids p (learnt al recog ex dl us)) = true.
 Proof. exact spec_prefixes_cutoff. Qed.
 Print Assumptions C19_cutoff.
 
 (* with no cutoff every learnable input URI compresses under the result and expands back to itself
    (skipped = recognised by the given converter, or -- known finding K1 -- a GitHub issue URI when ex = true) *)
-Theorem C19_roundtrip : forall al known_rs ex dl cutoff meta us u p l D,
+Theorem C19_roundtrip : forall al recog ex dl cutoff meta us u p l D,
   match cutoff with None => True | Some k => k = 0 end -> ~ In 58%N meta ->
-  In u us -> skipped known_rs ex u = false -> classify al (eff_delims dl) u = Some (p, l) ->
-  mk_conv true [58%N] (spec_records al known_rs ex dl cutoff meta us) = Val D ->
+  In u us -> skipped recog ex u = false -> classify al (eff_delims dl) u = Some (p, l) ->
+  mk_conv true [58%N] (spec_records al recog ex dl cutoff meta us) = Val D ->
   exists x, compress D u false false = Val (Some x) /\ expand D x false false = Val (Some u).
 Proof. exact roundtrip. Qed.
 Print Assumptions C19_roundtrip.
 
 (* URIs already recognised by a supplied converter contribute nothing *)
-Theorem C19_known_skip : forall al rs ex dl cutoff meta us,
-  spec_records al (Some rs) ex dl cutoff meta us =
-  spec_records al (Some rs) ex dl cutoff meta (filter (fun u => negb (sp_is_uri rs u)) us).
+Theorem C19_known_skip : forall al recog ex dl cutoff meta us,
+  spec_records al recog ex dl cutoff meta us =
+  spec_records al recog ex dl cutoff meta (filter (fun u => negb (recog u)) us).
 Proof. exact known_skip. Qed.
 Print Assumptions C19_known_skip.
 
@@ -73,12 +85,12 @@ Theorem C19_github_refuted :
   let al := (fun c => (48 <=? c) && (c <=? 57))%N in
   let u := (github ++ [47;111;47;114;47;105;115;115;117;101;115;47;49;50])%N in
   classify al default_delimiters u <> None /\
-  exists D, discover al None [] None [110;115]%N [u] = Val D /\ compress D u false false = Val None.
+  exists D, discover al (fun _ => false) [] None [110;115]%N [u] = Val D /\ compress D u false false = Val None.
 Proof. exact github_refuted. Qed.
 Print Assumptions C19_github_refuted.
 
 Example C19_nonvacuous :
   let al := (fun c => (48 <=? c) && (c <=? 57) || (97 <=? c) && (c <=? 122))%N in
-  exists D, discover al None [] (Some 2) [110;115]%N [[104;47;97;95;49]; [104;47;97;95;50]; [104;47;98]; [104;47;97;95;49]]%N = Val D
+  exists D, discover al (fun _ => false) [] (Some 2) [110;115]%N [[104;47;97;95;49]; [104;47;97;95;50]; [104;47;98]; [104;47;97;95;49]]%N = Val D
     /\ map r_uri (recs D) = [[104;47;97;95]]%N /\ map r_prefix (recs D) = [[110;115;49]]%N.
 Proof. vm_compute. eexists. repeat split; reflexivity. Qed.
